@@ -99,16 +99,19 @@ VNames(it) ==
 ----------------------------------------------------------------------------------------------------
 (* F8 attributes: where legal, well-formed, not repeated                                             *)
 AttrNames == {"allow", "deprecated", "compress", "slicedFormat", "oneway", "unknown", "foreign"}
-Targets == {"file", "module", "struct", "field", "interface", "operation", "operation_ret", "parameter", "retmember", "enum", "enumerator",
-            "custom", "alias", "typeref", "base", "underlying", "enfield"}
+\* operations in every return shape: nothing (also with a streamed parameter), one value, one streamed value, a tuple, a
+\* tuple ending in a stream
+OpTargets == {"operation", "operation_streamparam", "operation_ret", "operation_retstream", "operation_rettuple", "operation_rettuplestream"}
+Targets == {"file", "module", "struct", "field", "interface", "parameter", "retmember", "enum", "enumerator",
+            "custom", "alias", "typeref", "base", "underlying", "enfield", "cstruct", "cenum"} \cup OpTargets
 ArgShapes == {"none", "valid1", "valid2", "invalid", "casewrong", "empty_parens"}
 AttrItems == [a : AttrNames, on : Targets, args : ArgShapes, twice : BOOLEAN]
 IsTypeRefTarget(t) == t \in {"typeref", "base", "underlying"}
 LegalOn(a, t) ==
   CASE a = "allow" -> ~(t = "module" \/ IsTypeRefTarget(t))
     [] a = "deprecated" -> t \notin {"file", "module", "parameter", "retmember"} /\ ~IsTypeRefTarget(t)
-    [] a \in {"compress", "slicedFormat"} -> t \in {"operation", "operation_ret"}
-    [] a = "oneway" -> t = "operation"                                           \* only operations that return nothing
+    [] a \in {"compress", "slicedFormat"} -> t \in OpTargets
+    [] a = "oneway" -> t \in {"operation", "operation_streamparam"}              \* only operations that return nothing (a streamed return is a return)
     [] OTHER -> TRUE
 NArgs(s) == CASE s \in {"none", "empty_parens"} -> 0 [] s = "valid2" -> 2 [] OTHER -> 1
 CountOk(a, s) == CASE a = "allow" -> NArgs(s) >= 1
